@@ -16,6 +16,7 @@ OBLIGATIONS = [
     "NanoVerif.C14.offsets_contiguous",
     "NanoVerif.C02.regroup_contiguous",
     "NanoVerif.C02.regroup_perm",
+    "NanoVerif.C14.copyRuns_eq_runs",
 ]
 DESIGN_REF = "DESIGN.md §5 C07"
 LEVEL_TEXT = ("Proof for the clauses nanoemoji itself establishes + observation for third-party tables. `validFont` (Lean, Model/Valid.lean) states every "
